@@ -25,7 +25,7 @@ ASSUMPTIONS = [
     "PYTHONHASHSEED is fixed (0) in both the sequence process and the fresh baseline process",
     "for compiled ACLs only result equality under reuse is required (matching overwrites their scratch 'match' field)",
 ]
-FLOORS = {"quick": {"jobs_in_sequences": 60, "fresh_baselines": 30, "snapshots_compared": 180, "repeated_jobs": 6, "same_vendor_other_hw": 6, "acl_jobs": 6, "rule_mutating_logic_jobs": 4, "nested_dropped_row_jobs": 8, "reference_tracker_jobs": 6, "shared_compiled_acl_jobs": 36, "overlay_provider_jobs": 30, "reference_tracker_jobs_with_a_silent_generator": 6, "collecting_logic_pair_jobs": 12, "collecting_logic_jobs_refused": 6, "jobs_with_a_software_release": 40, "jobs_with_one_deep_acl_text_for_several_vendors": 20, "jobs_with_rows_matched_by_two_ordering_rules": 12},
+FLOORS = {"quick": {"jobs_in_sequences": 60, "fresh_baselines": 30, "snapshots_compared": 180, "repeated_jobs": 6, "same_vendor_other_hw": 6, "acl_jobs": 6, "rule_mutating_logic_jobs": 4, "nested_dropped_row_jobs": 8, "reference_tracker_jobs": 6, "shared_compiled_acl_jobs": 36, "overlay_provider_jobs": 30, "reference_tracker_jobs_with_a_silent_generator": 6, "collecting_logic_pair_jobs": 12, "collecting_logic_jobs_refused": 6, "jobs_with_a_software_release": 40, "jobs_with_one_deep_acl_text_for_several_vendors": 20, "jobs_with_rows_matched_by_two_ordering_rules": 12, "overlay_providers_with_a_lazy_directory_list": 4},
           "thorough": {"jobs_in_sequences": 2500, "fresh_baselines": 400, "snapshots_compared": 7500, "repeated_jobs": 200, "same_vendor_other_hw": 200, "acl_jobs": 200}}
 NPROC = {"quick": 8, "thorough": 16}
 FAMILIES = {"huawei": ["Huawei", "Huawei CE6870", "Huawei NE40E-X8", "Huawei Quidway S5300"], "huawei ce": ["Huawei CE0000", "Huawei NE40E-X8", "Huawei Quidway S5700"],
@@ -147,6 +147,14 @@ TWO_ORDER_RULES = [
 ]
 
 
+IGNORE_CASE_PAIR = [
+    {"kind": "hand", "model": "Cisco Catalyst 2960", "old": "interface GigabitEthernet0/1\n ipv6 nd ra min-interval 10\n", "new": "interface GigabitEthernet0/1\n ipv6 nd ra min-interval 20\n",
+     "acl": "interface *\n    ipv6 nd ra min-interval\n    ipv6 nd ra max-interval\n    ipv6 nd ra router-lifetime\n"},
+    {"kind": "hand", "model": "Huawei CE6870", "old": "interface 10GE1/0/1\n ipv6 nd ra Min-interval 10\n ipv6 nd ra MAX-interval 30\n",
+     "new": "interface 10GE1/0/1\n ipv6 nd ra min-interval 10\n ipv6 nd ra max-interval 30\n"},
+]
+
+
 SYNTH_RB = """
 x * %logic=vfmut.leaky
 y *
@@ -244,6 +252,10 @@ def plan(tier, seed):
         for ps in rng.sample(SOFT_PAIRS, 4):
             at = rng.randrange(len(seq) + 1)
             seq[at:at] = [dict(ps[0]), dict(ps[1])]
+        if q % 2 == 1:
+            # before any Huawei rulebook has been compiled in the process: a job of another vendor whose ACL names, as plain case-sensitive rows,
+            # lines that the Huawei rulebook marks %ignore_case; then a Huawei job that differs from its device in letter case only
+            seq[0:0] = [dict(IGNORE_CASE_PAIR[0]), dict(IGNORE_CASE_PAIR[1])]
         for dj in rng.sample(DEEP_ACL_JOBS, 3):
             seq.insert(rng.randrange(len(seq) + 1), dict(dj))
         for tj in rng.sample(TWO_ORDER_RULES, 2):
@@ -410,9 +422,15 @@ def run_overlay(spec, acc):
         rng = random.Random("C20/overlay/%s" % spec["seed"])
         for k in range(12 if spec["tier"] == "quick" else 200):
             order = [rng.choice("HCAN") for _ in range(rng.randint(2, 5))]
-            prov = DefaultRulebookProvider(root_dir=(d, stock))
+            # the directory list may be any iterable (Union[str, Iterable[str]]): a tuple, a list, or something lazily filtered
+            dirs = [(d, stock), [d, stock], (x for x in (d, stock)), filter(None, [d, stock])][k % 4]
+            prov = DefaultRulebookProvider(root_dir=dirs)
+            acc.count("overlay_providers_with_a_lazy_directory_list", 1 if k % 4 >= 2 else 0)
             for pos, j in enumerate(order):
-                got = run(prov, j)
+                try:
+                    got = run(prov, j)
+                except Exception as e:
+                    got = {"cmds": ["EXC %s" % type(e).__name__], "sig": None}
                 acc.count("overlay_provider_jobs")
                 acc.case(["overlay", order[:pos + 1]], nontrivial=pos >= 1)
                 if got != base[j]:
